@@ -859,6 +859,8 @@ def id_sites(w):
         if c.imp is not None:
             s = c.imp[0]
             sites.append(("import-source-of-component", (lambda s=s: s.id), (lambda v, s=s: setattr(s, "id", v))))
+        if c.imp is not None:
+            continue        # the variables an imported component holds (API only) are not validated: no id site there
         for v_ in c.vars:
             sites.append(("variable/" + cc + "/" + idx_class(c.vars, v_), (lambda v_=v_: v_.id), (lambda v, v_=v_: setattr(v_, "id", v))))
         for rs in c.resets:
